@@ -93,7 +93,7 @@ func (s *c11Stream) Read(p []byte) (int, error) {
 	var n int
 	var err error
 	got := false
-	ok := s.poll(s.hang, func() bool {
+	ready := func() bool {
 		if len(s.left) > 0 {
 			n = copy(p, s.left)
 			s.left = s.left[n:]
@@ -129,11 +129,23 @@ func (s *c11Stream) Read(p []byte) (int, error) {
 			return true
 		}
 		return false
+	}
+	// the Read is counted as returned in the same critical section that hands its data (or its
+	// error) over: otherwise readerIdle() would hold between the two — queue empty, one more Read
+	// entered than returned — while the reader is on its way out with the last bytes of a frame
+	ok := s.poll(s.hang, func() bool {
+		if ready() {
+			s.rdReturn++
+			return true
+		}
+		return false
 	})
 	_ = got
-	s.mu.Lock()
-	s.rdReturn++
-	s.mu.Unlock()
+	if !ok {
+		s.mu.Lock()
+		s.rdReturn++
+		s.mu.Unlock()
+	}
 	if !ok {
 		return 0, errC11Deadline
 	}
